@@ -31,6 +31,7 @@ type OperationTracker struct {
 
 	mu         sync.RWMutex
 	operations map[cid.Cid]*Operation
+	verif      verifOptData
 }
 
 func (opt *OperationTracker) String() string {
@@ -77,14 +78,17 @@ func (opt *OperationTracker) TrackNewOperation(ctx context.Context, pin *api.Pin
 	op, ok := opt.operations[pin.Cid]
 	if ok { // operation exists
 		if op.Type() == typ && op.Phase() != PhaseError && op.Phase() != PhaseDone {
+			verifOpt(opt, "TrackNew", op, typ, ph)
 			return nil // an ongoing operation of the same sign exists
 		}
+		verifOpt(opt, "Replace", op, typ, ph)
 		op.Cancel() // cancel ongoing operation and replace it
 	}
 
 	op2 := NewOperation(ctx, pin, typ, ph)
 	logger.Debugf("'%s' on cid '%s' has been created with phase '%s'", typ, pin.Cid, ph)
 	opt.operations[pin.Cid] = op2
+	verifNew(opt, op2, op)
 	return op2
 }
 
@@ -97,6 +101,7 @@ func (opt *OperationTracker) Clean(ctx context.Context, op *Operation) {
 	if ok && op == op2 { // same pointer
 		delete(opt.operations, op.Cid())
 	}
+	verifClean(opt, op, op2, ok)
 }
 
 // Status returns the TrackerStatus associated to the last operation known
@@ -130,6 +135,7 @@ func (opt *OperationTracker) SetError(ctx context.Context, c cid.Cid, err error)
 	}
 
 	if ph := op.Phase(); ph == PhaseDone || ph == PhaseError {
+		verifOpt(opt, "TSetError", op, op.Type(), ph)
 		op.SetPhase(PhaseError)
 		op.SetError(err)
 	}
@@ -213,6 +219,7 @@ func (opt *OperationTracker) CleanAllDone(ctx context.Context) {
 	for _, op := range opt.operations {
 		if op.Phase() == PhaseDone {
 			delete(opt.operations, op.Cid())
+			verifOpt(opt, "CleanDone", op, op.Type(), PhaseDone)
 		}
 	}
 }
